@@ -23,6 +23,7 @@ def run(chk, F):
     # the unit *name* printed with the quotient is canonicalize(target): it must read the target the way lookup() did when
     # the quotient was computed (same exact -> prefix -> plural order, first matching prefix)
     chk.guard("reply-unit-name", "canonicalize", lambda: reply_name(chk, F))
+    chk.guard("target-consumed", "parse_query", lambda: target_consumed(chk, F))
     chk.floor("conversion-gate", 6)
 
 
@@ -232,3 +233,64 @@ def reply_name(chk, F):
     chk.decide(a is not None and a == b, "reply-unit-name", "rink_core::loader::registry::Registry", "canonicalize-reads-like-lookup", "",
                "canonicalize selects the prefix the way lookup does: %s" % a,
                "canonicalize and lookup select the prefix differently (%s vs %s): the unit named in a conversion reply is not the unit the quotient was computed with" % (b, a))
+
+
+def target_consumed(chk, F):
+    """The conversion that is answered is the one that was written: parse_query builds Query::Convert only when nothing but
+    end of input follows the target (otherwise `300 K -> degC / s` is answered as `-> degC`, a non-conformable target accepted),
+    and the single-token targets (temperature scale, time zone) are consumed before that test."""
+    import hirutil as H
+    from facts import hir_walk
+    fn = F.find(CORE, "parsing::text_query::parse_query")
+    h = F.hir_of(fn)
+    fk = "rink_core::parsing::text_query::parse_query"
+    ctor = [n for n in hir_walk(h["body"]) if n.get("k") == "Call" and n["f"].get("k") == "Path" and n["f"]["r"].get("ctor_of", "").endswith("Query::Convert")]
+    if not ctor:
+        raise AnchorLost("parse_query: Query::Convert construction not found")
+    gated = 0
+    for m in hir_walk(h["body"]):
+        if m.get("k") == "Match" and m.get("src") == "Normal" and any(x.get("k") == "MethodCall" and x["name"] == "peek" for x in hir_walk(m["scrut"])):
+            for a in m["arms"]:
+                if "Token::Eof" in H.pat_str(a["pat"]) and any(x is c for c in ctor for x in hir_walk(a["body"])):
+                    gated += sum(1 for c in ctor if any(x is c for x in hir_walk(a["body"])))
+    # the unit-list form is built from parse_unitlist, which itself only succeeds at the end of the input
+    lists = [c for c in ctor if "Conversion::List" in H.expr_str(c, 200)]
+    if lists:
+        ul = F.find(CORE, "parsing::text_query::parse_unitlist")
+        hu = F.hir_of(ul)
+        loops = [l for l in hir_walk(hu["body"]) if l.get("k") == "Loop"]
+        ok_list = False
+        for l in loops:
+            brk = [b for b in hir_walk(l["body"]) if b.get("k") == "Break" and b.get("target") == l.get("hid")]
+            arms_with_break = []
+            for m in hir_walk(l["body"]):
+                if m.get("k") == "Match" and m.get("src") == "Normal":
+                    for a in m["arms"]:
+                        if any(b2 is b for b in brk for b2 in hir_walk(a["body"])):
+                            arms_with_break.append(H.pat_str(a["pat"]))
+            ok_list = ok_list or (bool(brk) and len(arms_with_break) == len(brk) and all("Token::Eof" in p for p in arms_with_break))
+        chk.decide(ok_list, "target-consumed", fk, "unit-list-ends-at-end-of-input", ul.where(),
+                   "parse_unitlist leaves its loop only on the end of the input (every other way out returns None)",
+                   "parse_unitlist can succeed before the end of the input")
+        if ok_list:
+            gated += len(lists)
+    chk.decide(gated == len(ctor), "target-consumed", fk, "convert-only-at-end-of-input", "%s:%d" % (fn.file, ctor[0]["line"]),
+               "Query::Convert is built only in the arm where the next token is the end of the input",
+               "Query::Convert is built without checking that the input ends after the target (%d of %d constructions are behind an end-of-input arm): "
+               "trailing tokens are dropped and a different, possibly non-conformable, target is answered" % (gated, len(ctor)))
+    # Degree / Timezone targets: the arm that picks them consumes the token
+    arms = []
+    for m in hir_walk(h["body"]):
+        if m.get("k") == "Match" and m.get("src") == "Normal":
+            for a in m["arms"]:
+                p = H.pat_str(a["pat"])
+                b = a["body"]
+                txt = H.expr_str(b, 200)
+                if ("Conversion::Degree" in txt and "Token::Degree" in p) or ("Conversion::Timezone" in txt and "is_valid_timezone" in H.expr_str(a.get("guard") or {}, 80)):
+                    consumed = any(x.get("k") == "MethodCall" and x["name"] == "next" for x in hir_walk(b))
+                    arms.append(("Degree" if "Token::Degree" in p else "Timezone", consumed, a["line"]))
+    if len(arms) < 2:
+        raise AnchorLost("parse_query: Degree/Timezone target arms not found")
+    for kind, consumed, line in arms:
+        chk.decide(consumed, "target-consumed", fk, "single-token-target-consumed:" + kind, "%s:%d" % (fn.file, line),
+                   "the %s target token is consumed before the end-of-input test" % kind, "the %s target is only peeked: what follows it is never looked at" % kind)
